@@ -63,10 +63,10 @@ func genSynthSweep(seed uint64, prop, tier, mode string) *Plan {
 	g := newRNG(seed)
 	idx := corpusIndex()
 	p := &Plan{Engine: "hist", Prop: prop, Seed: seed, Tier: tier, Knobs: map[string]any{"worker_mode": mode}}
-	R := 12
-	n := 14
+	R := 8
+	n := 24
 	if tier == "thorough" {
-		R, n = 60, 30
+		R, n = 40, 40
 	}
 	p.Knobs["repeat_R"] = R
 	for i := 0; i < n; i++ {
